@@ -175,7 +175,28 @@ fn run_to_end(e: &mut Exch, max_steps: usize) -> Result<usize, (String, String)>
 
 pub fn run_interleaved(prop: &'static str, menu: Vec<Arc<ExchCfg>>, rep: &mut Report) {
     // solo lengths
-    let lens: Vec<usize> = menu.iter().map(|c| { let mut e = Exch::new(c.clone()).expect("exch"); run_to_end(&mut e, usize::MAX).expect("solo run") }).collect();
+    // (on a tree with state outside the objects even this run, which comes after the exploration on the
+    // same threads, can fail: that is a finding, not a harness crash)
+    let mut lens: Vec<usize> = Vec::new();
+    for (x, c) in menu.iter().enumerate() {
+        let r = guarded(|| -> Result<usize, (String, String)> {
+            let mut e = Exch::new_k(c.clone())?;
+            run_to_end(&mut e, usize::MAX)
+        });
+        match r {
+            Ok(Ok(n)) => lens.push(n),
+            Ok(Err((k, w))) => {
+                let base = k.trim_start_matches(&format!("{}:", prop)).to_string();
+                let owned = base.starts_with("panic:") || (c.scope)(&base);
+                rep.violation(Violation { key: format!("{}{}:interleaved:{}", if owned { "" } else { "out-of-scope:" }, prop, base), ord: 70_000_000 + x as u64, what: format!("{} [exchange #{} of the interleaving menu, run on its own after other exchanges ran on the thread]", w, x), replay: json!({"kind": "interleaved", "x": x, "y": x}) });
+                return;
+            }
+            Err(p) => {
+                rep.violation(Violation { key: format!("{}:interleaved:panic:{}", prop, crate::engine::panic_site(&p)), ord: 70_000_000 + x as u64, what: format!("{} [exchange #{} of the interleaving menu on its own]", p, x), replay: json!({"kind": "interleaved", "x": x, "y": x}) });
+                return;
+            }
+        }
+    }
     let pairs: Vec<(usize, usize)> = (0..menu.len()).flat_map(|x| (0..menu.len()).map(move |y| (x, y))).collect();
     let res: Vec<(usize, usize, u64, Option<(String, String, usize, usize)>)> = pairs
         .par_iter()
